@@ -16,6 +16,7 @@ package main
 import (
 	"bytes"
 	"fmt"
+	"strings"
 
 	"github.com/libsv/go-bk/crypto"
 	"github.com/libsv/go-bt/v2"
@@ -49,6 +50,7 @@ type verEntry struct {
 
 type tableRec struct {
 	interpgen.Recorder
+	states  []*interpreter.State // the State handed to every AfterStep, kept for resuming
 	tx      *bt.Tx
 	idx     int
 	blobs   [][]byte
@@ -199,6 +201,13 @@ func smallNum(b []byte) (int, bool) {
 		v = -v
 	}
 	return v, true
+}
+
+func (t *tableRec) AfterStep(s *interpreter.State) {
+	t.Recorder.AfterStep(s)
+	if len(t.states) < 64 {
+		t.states = append(t.states, s)
+	}
 }
 
 func (t *tableRec) BeforeExecuteOpcode(s *interpreter.State) {
@@ -373,7 +382,7 @@ type build struct {
 	codeTag string // set by a family whose expectation is the node's rule on a point where the library is known to differ
 }
 
-var txCounter int
+var txCounter, resumeCount int
 
 // lateInput: newBuild puts the tested input at position >= 1 with a non-zero sequence number
 var lateInput bool
@@ -709,6 +718,32 @@ func (b *build) run() {
 		Idx: b.idx, Sats: b.sats, Sigs: sigHex, Note: b.note}
 	if panicked {
 		c.Violate("Engine.Execute/panic", msg, tw)
+	}
+	// a run resumed from any snapshot a debugger was handed after a step (interpreter.WithState) ends as the
+	// uninterrupted run does: the snapshot carries everything the rest of the execution depends on, the position of the
+	// last executed OP_CODESEPARATOR included (cases with a separator, a sample of the others)
+	resumeCount++
+	if !panicked && !b.p2sh && (strings.Contains(b.kind, "separator") || resumeCount%7 == 0) {
+		for k, st := range rec.states {
+			if st.IsFinished || st.ScriptIdx > 1 {
+				continue
+			}
+			var err2 error
+			tx2 := b.tx.Clone()
+			p2, m2 := common.Safely(func() {
+				err2 = interpreter.NewEngine().Execute(
+					interpreter.WithTx(tx2, b.idx, &bt.Output{Satoshis: b.sats, LockingScript: bscript.NewFromBytes(append([]byte{}, lock...))}),
+					interpreter.WithFlags(scriptflag.Flag(b.flags)), interpreter.WithState(st))
+			})
+			if p2 {
+				c.Violate("Engine.Execute/panic", "resumed from a snapshot: "+m2, tw)
+				break
+			}
+			if (err2 == nil) != (err == nil) {
+				c.Violate("WithState/resumed-run-ends-differently", fmt.Sprintf("resumed from the AfterStep snapshot %d (script %d, opcode %d, last separator %d): %v; uninterrupted: %v", k, st.ScriptIdx, st.OpcodeIdx, st.LastCodeSeparatorIdx, err2, err), tw)
+				break
+			}
+		}
 	}
 	// the Go-level statement of the property: verdict class per signature operation
 	firstErr := len(rec.Snaps)
